@@ -538,6 +538,24 @@ def run(prog, check):
                  'no booking of the %s leg found' % nm_,
                  'a dividend: not income-relevant for the payer, income for the receiver')
 
+    # a flow counts as income unless the caller says otherwise - on every entry point alike: the defaults of all `is_income...`
+    # parameters of the package agree (cross-check of sibling interfaces: a flow registered through the model with default flags is
+    # booked exactly as the same flow recorded directly on the sectors)
+    flags_ = []
+    for f_ in prog.all_functions():
+        for p_, d_ in f_.defaults().items():
+            if p_.startswith('is_income') and isinstance(d_, ast.Constant) and isinstance(d_.value, bool):
+                flags_.append((f_, p_, d_.value))
+    if len(flags_) >= 2:
+        n_true = sum(1 for x_ in flags_ if x_[2])
+        major = n_true * 2 >= len(flags_)
+        for f_, p_, v_ in flags_:
+            check.saw(f_)
+            check.ob('C06.R2', '%s::income-default-agrees(%s)' % (f_.key, p_), v_ == major, f_.where,
+                     'default %s=%r as on the other entry points' % (p_, v_) if v_ == major else
+                     'default %s=%r while the other cash-flow entry points default to %r: the same flow is income or not depending on the '
+                     'entry point used to record it' % (p_, v_, major),
+                     'RegisterCashFlow(src, tgt, var) against src.AddCashFlow / tgt.AddCashFlow with default flags')
     check.floor('C06.R1', 2)
     check.floor('C06.R2', 3)
     check.floor('C06.R3', 4)
